@@ -200,7 +200,7 @@ func (c10) Gen(r *Rand, sc *Scenario, tier string) {
 	nops := []int{1, 1, 2, 3, 6}[r.Intn(5)]
 	faultFree := r.Chance(1, 8)
 	var ops []Op
-	if tier == "thorough" && sc.Index%16 == 0 {
+	if sc.Index%16 == 0 {
 		// every truncation of one small document through one entry point
 		b := genTreeBytes(r, 60)
 		name := hostileOps[r.Intn(len(hostileOps))]
